@@ -62,6 +62,7 @@ void task_run(int id, int yields) {
     if (t.epoch != epoch) pviolation("C07 C08", "RUN_AFTER_STOP", "task %d, submitted before the last stop(), runs after it", id);
     if (maxThreads == 1) {
         if (id < last_run_id) pviolation("C07", "ORDER", "single worker: task %d runs after task %d which was submitted later", id, last_run_id);
+        if (tasks_running > 0) pviolation("C07", "ORDER", "single worker: task %d starts while an earlier task is still running (tasks must run one after the other, in submission order)", id);
         last_run_id = id;
     }
     workers_this_epoch.insert(tid);
